@@ -1,16 +1,16 @@
 import ZipVerif.Basic.RsAes
 import ZipVerif.Gen.Types
+import ZipVerif.Gen.AesCtr
 /-
-Glue between the generated `AesMode` and the vocabulary of the AES layer (`Basic/RsAes.lean`), imported by
-the generated `Gen/AesLayer.lean`.
+Glue between the generated key stream (`Gen/AesCtr.lean`) and the vocabulary of the AES layer
+(`Basic/RsAes.lean`), imported by the generated `Gen/AesLayer.lean`.
 
-Trusted vocabulary: `aes.rs::cipher_from_mode(mode, key)` — `Box::new(AesCtrZipKeyStream::<AesNNN>::new(key))
-as Box<dyn AesCipher>` for the `NNN` of the mode — is an arbitrary partial function of the mode and the key
-into the states of `Box<dyn AesCipher>` (`none` = the panic of `GenericArray::from_slice` on a key of the wrong
-length).  The Tie instantiates it with "a key stream in its initial state, if the key has the length of the
-mode" (`Model.Aes.validate`); the key stream itself is translated (`Gen/AesCtr.lean`).
+Trusted vocabulary: `Box::new(x) as Box<dyn aes_ctr::AesCipher>` for a key stream `x: AesCtrZipKeyStream<C>` (the
+only implementor of the trait) is `AesBox.box x`, an ARBITRARY function into the states of `Box<dyn AesCipher>`
+(`Rs.AesDyn`).  The Tie instantiates `Rs.AesDyn` with the translated key stream and `box` with "forget the type
+parameter" (`Tie/AesValidate.lean`).  `cipher_from_mode` and `AesCtrZipKeyStream::new` themselves are translated.
 -/
 namespace ZipVerif
-class Rs.AesFromMode [Rs.AesDyn] where
-  cipher_from_mode : Gen.AesMode → Bytes → Option Rs.AesDyn.Cipher
+class Rs.AesBox [Rs.AesDyn] where
+  box : {C : Type} → Gen.AesCtrZipKeyStream C → Rs.AesDyn.Cipher
 end ZipVerif
